@@ -427,7 +427,7 @@ func init() {
 		Assume:      []string{"reference semantics of DESIGN.md §5 (internal/ref)", "error message wording is never compared"},
 		QuickCap:    100 * time.Second,
 		ThoroughCap: 20 * time.Minute,
-		HangLimit:   60 * time.Second,
+		HangLimit:   240 * time.Second,
 		Run:         runC01,
 		Replay: func(c *core.Ctx, cs core.Case) *core.Viol {
 			v := c01Compare(cs.Kind, strings.Split(cs.Data, " ;; "))
